@@ -3,6 +3,7 @@
    Proofs/DispatchInv.v: a node whose generator passed its last `yield this_task` is never handed
    to the runner again). *)
 From DoitV Require Import Base Dispatch Runner Parallel DispatchP DispatchInv RunnerTr RunnerP ParallelP AncP HoldP HoldG CompleteP ParHoldP TermP LiveP OrderP.
+From DoitV Require Import ParStepP ParLiveP ParTermP ParOutcomeLiveP ParLiveEx.
 Open Scope N_scope.
 
 (* serial runner, every task table / selection / flags / set-iteration oracle / fuel:
@@ -173,3 +174,16 @@ Theorem C02_no_node_outside_closure_serial :
   forall x, d_nodes (r_d r') x <> None -> needed tasks selection x.
 Proof. exact serial_closure_nodes. Qed.
 Print Assumptions C02_no_node_outside_closure_serial.
+
+(* ===== liveness of the parallel runner models (Proofs/ParStepP.v, ParLiveP.v, ParTermP.v, ParOutcomeLiveP.v, by sub-agent) ===== *)
+(* liveness half of "every selected task gets exactly one final report", parallel runners: finite acyclic table,
+   enough fuel, at least one worker, --continue: the run is interrupted by an action (4) or ends with exit code
+   <= 2 having a final report for EVERY selected task in the merged log (uniqueness: C02_parallel_one_final) *)
+Theorem C02_parallel_acyclic_continue_all_reported :
+  forall tasks univ selection, finite_table tasks univ -> (forall k, ~ reach tasks k k) ->
+  forall wake_rank calc_rank always proc nprocs sched fuel,
+  (0 < nprocs)%nat -> (par_enough_fuel tasks univ selection nprocs <= fuel)%nat ->
+  let res := run_parallel tasks wake_rank calc_rank true always proc fuel nprocs sched selection in
+  snd res = 4 \/ (snd res <= 2 /\ forall x, In x selection -> pfinished (fst res) x).
+Proof. exact parallel_acyclic_continue_all_reported. Qed.
+Print Assumptions C02_parallel_acyclic_continue_all_reported.
